@@ -32,7 +32,7 @@ import pgradd.ThermoChem                                            # noqa: E402
 from pgradd.GroupAdd.Library import GroupLibrary                    # noqa: E402
 
 TEMPS = {1: 298.15, 2: 500.0, 3: 900.0}
-MOLS = {'BensonGA': ['CC', 'CCCCCC', 'CCO', 'C=CC', 'c1ccccc1', 'C/C=C\\C', 'C/C=C/C', 'CC=CC'],
+MOLS = {'BensonGA': ['CC', 'CCCCCC', 'CCO', 'C=CC', 'c1ccccc1', 'C/C=C\\C', 'C/C=C/C', 'CC=CC', 'OCC', 'C(C)O'],
         'GRWSurface2018': ['C([Pt])C', 'CC', 'OC([Pt])C'],
         'SalciccioliGA2012': ['C([Pt])C', 'CC([Pt])O'],
         'X1': ['C([Ru])C', 'CC', 'C([Ru])([Ru])C'],
@@ -258,6 +258,14 @@ def systematic(libs):
     # stereo variants of one constitution decomposed by one library object, in both orders
     if 'BensonGA' in libs:
         for order in (['C/C=C\\C', 'C/C=C/C', 'CC=CC'], ['CC=CC', 'C/C=C/C', 'C/C=C\\C']):
+            h = [{'op': 'load', 'h': 1, 'L': 'BensonGA'}]
+            for k, m in enumerate(order):
+                h += [{'op': 'decompose', 'h': 1, 'm': m}, {'op': 'estimate', 'h': 1, 'd': k + 1},
+                      {'op': 'eval', 'e': k + 1, 'p': 'H', 't': 1, 'sel': False}]
+            hs.append(h)
+    # one species written with its atoms in different orders, decomposed by one library object
+    if 'BensonGA' in libs:
+        for order in (['CCO', 'OCC', 'C(C)O'], ['C(C)O', 'CCO', 'OCC']):
             h = [{'op': 'load', 'h': 1, 'L': 'BensonGA'}]
             for k, m in enumerate(order):
                 h += [{'op': 'decompose', 'h': 1, 'm': m}, {'op': 'estimate', 'h': 1, 'd': k + 1},
